@@ -58,7 +58,7 @@ INSTRS = [
 
 class C02Gen(progen.ProgGen):
     def __init__(self, rng, uid="", features=None):
-        f = {"instr": 0.3, "cond_divmod": 0.35, "kk_in_index": 0.6, "stride_assert": 0.3, "gen_names": 0.35}
+        f = {"instr": 0.3, "cond_divmod": 0.35, "kk_in_index": 0.6, "stride_assert": 0.3, "gen_names": 0.35, "prec_config": 0.4}
         f.update(features or {})
         super().__init__(rng, uid, f)
         self.used_instr = False
@@ -109,6 +109,8 @@ class C02Gen(progen.ProgGen):
             self.f["shadow"] = max(self.f["shadow"], 0.5)
         s = super().module(name)
         s = s.replace(progen.HEADER, HEADER, 1)
+        if self.p("prec_config"):
+            s = self.add_precision_config(s, name)
         if self.f["shadow"] >= 0.5:
             # user variables that look like the identifiers the backend generates when it disambiguates (i_1, i_2, ...)
             # next to shadowed `i`s: new_varname must skip them
@@ -117,8 +119,40 @@ class C02Gen(progen.ProgGen):
         return s
 
 
+PREC_LITERALS = {
+    "scale": ["0.1", "0.3", "0.001", "0.7", "2.5", "1.0 / 3.0", "0.1 * 3.0", "-0.1"],          # f64 field
+    "count": ["16777217", "33554433", "16777219", "50331651", "5", "-16777217"],              # i32 field
+    "gain": ["0.5", "3.0", "0.1", "0.25"],                                                     # f32 field
+}
+
+
+def _add_precision_config(self, src, name):
+    """a configuration with f64 / i32 / f32 fields and literal writes to them at the start of the main procedure: the
+    context struct must end up with the FIELD-precision value of each literal (double 0.1, the i32 2**24 + 1)"""
+    rng = self.rng
+    cn = "CfgP" + self.uid
+    marker = "@proc\ndef %s(" % name
+    k = src.rfind(marker)
+    if k < 0:
+        return src
+    head, main = src[:k], src[k:]
+    lines = main.split("\n")
+    j = 2
+    while j < len(lines) and lines[j].startswith("    assert "):
+        j += 1
+    writes = []
+    for fld in rng.sample(["scale", "count", "gain"], rng.randint(1, 3)):
+        writes.append("    %s.%s = %s" % (cn, fld, rng.choice(PREC_LITERALS[fld])))
+    lines[j:j] = writes
+    cls = "@config\nclass %s:\n    scale: f64\n    count: i32\n    gain: f32\n\n" % cn
+    return head + cls + "\n".join(lines)
+
+
 class OpTimeout(Exception):
     pass
+
+
+C02Gen.add_precision_config = _add_precision_config
 
 
 def _alarm(signum, frame):
